@@ -990,11 +990,13 @@ class Program:
         self.instances = {i["key"]: i for i in facts["instances"]}
         self.roots = dict((a, b) for a, b in facts["roots"])
         self.features = facts.get("features", [])
+        self.asked = set()
 
     def fn(self, path):
         f = self.fns.get(path)
         if f is None:
             raise CannotDecide("anchor function not found: %s" % path)
+        self.asked.add(path)      # anchors named by a rule (as opposed to functions met while scanning); see tools/coverage_map.py
         return f
 
     def has_fn(self, path):
